@@ -2549,6 +2549,9 @@ func (i *markAndSweeper) SaveHashes(ctx context.Context, toVisit hash.HashSet) e
 				nextToVisit.Insert(h)
 				return nil
 			})
+			if addErr != nil {
+				return
+			}
 
 			// To maintain the invariant that the destination only contains references to other chunks in
 			// the destination, we can only safely write leaf chunks into incremental chunk files.
